@@ -305,6 +305,23 @@ func (z ZeroI) IsZero() bool { return z == 7 } // "empty" is not the zero value
 
 type PlainI int
 
+// AlwaysEmpty gives every struct that embeds it an IsZero method. twinA and
+// twinB return values of two DISTINCT function-local types that print alike
+// ("model.twin"): one reports itself empty, the other is a plain struct.
+type AlwaysEmpty struct{}
+
+func (AlwaysEmpty) IsZero() bool { return true }
+
+func twinA() interface{} {
+	type twin struct{ AlwaysEmpty }
+	return twin{}
+}
+
+func twinB(n int) interface{} {
+	type twin struct{ N int }
+	return twin{N: n}
+}
+
 // OmitIfc has omitempty fields of interface type: whether the field is
 // reported depends on the dynamic type in it.
 type OmitIfc struct {
@@ -636,6 +653,18 @@ type HasPtrShaped struct {
 	S    PtrShaped
 	L    []PtrShaped
 	M    map[string]PtrShaped
+	I    interface{}
+}
+
+// PtrArr is pointer-shaped too: an array of exactly one pointer lives in the
+// interface word itself. FolderOpts(3) registers a user-defined folder for it.
+type PtrArr [1]*int
+
+type HasPtrArr struct {
+	Name string
+	S    PtrArr
+	L    []PtrArr
+	M    map[string]PtrArr
 	I    interface{}
 }
 
@@ -1035,6 +1064,12 @@ func FolderOpts(v int) []gotype.FoldOption {
 					return vs.OnNil()
 				}
 				return vs.OnInt(*p.P)
+			},
+			func(p *PtrArr, vs structform.ExtVisitor) error {
+				if p == nil || p[0] == nil {
+					return vs.OnNil()
+				}
+				return vs.OnInt(*p[0] + 1000000)
 			})}
 	}
 	return nil
@@ -1446,6 +1481,21 @@ var Catalogue = []TypeEntry{
 		}
 		return l
 	}),
+	foldOnly(mk("OmitTwins", false, func(c *simkit.Choices) OmitIfc {
+		// look-alike types in omitempty interface fields, in either order
+		o := OmitIfc{ID: c.N(100)}
+		switch c.N(4) {
+		case 0:
+			o.V, o.W = twinA(), twinB(1+c.N(9))
+		case 1:
+			o.V, o.W = twinB(1+c.N(9)), twinA()
+		case 2:
+			o.V = twinA()
+		default:
+			o.V = twinB(1 + c.N(9))
+		}
+		return o
+	})),
 	foldOnly(mk("OmitIfc", true, func(c *simkit.Choices) OmitIfc {
 		dyn := func() interface{} {
 			x := c.N(2) * (1 + c.N(9))
@@ -1817,6 +1867,15 @@ var Catalogue = []TypeEntry{
 		}
 		return h
 	})),
+	foldOnly(mk("PtrArr", false, func(c *simkit.Choices) PtrArr { n := 1 + c.N(1000); return PtrArr{&n} })),
+	foldOnly(mk("HasPtrArr", true, func(c *simkit.Choices) HasPtrArr {
+		n, m := 1+c.N(1000), 1+c.N(1000)
+		h := HasPtrArr{Name: genStr(c), S: PtrArr{&n}, L: []PtrArr{{&m}, {}}, M: map[string]PtrArr{"k": {&n}}}
+		if c.Bool() {
+			h.I = PtrArr{&m}
+		}
+		return h
+	})),
 	foldOnly(mk("Opts", false, func(c *simkit.Choices) Opts {
 		o := Opts{A: OptInt{Set: c.Bool(), V: c.N(1000)}, B: OptInt{Set: c.Bool(), V: c.N(1000)}, N: c.N(10)}
 		if c.Bool() {
@@ -2031,7 +2090,7 @@ var families = map[string][]string{
 	"wrap":   {"WrapPtr", "WrapMap", "WrapStr", "Wrap3", "[]WrapPtr", "map[string]WrapStr", "Ptrs"},
 	"inner":  {"Inner", "Holder", "HolderInline", "Nested", "Tagged", "[]*Inner", "Wide", "[]Wide", "OmitAll", "Ptrs", "Inline2", "TwoMaps"},
 	"named":  {"NamedSlice", "NamedMap", "NamedFields", "[]NamedSlice", "[]int", "map[string]string"},
-	"score":  {"PtrShaped", "HasPtrShaped", "Score", "[]Score", "map[string]Score", "Scored", "int"},
+	"score":  {"PtrShaped", "HasPtrShaped", "PtrArr", "HasPtrArr", "Score", "[]Score", "map[string]Score", "Scored", "int"},
 	"packed": {"PackedU8", "PackedI8", "PackedBool", "PackedU16", "PackedI16", "PackedU32", "PackedI32", "PackedF32", "PackedMix"},
 	"simple": {"Simple", "[]Simple", "map[string]Simple", "*Simple", "Nested", "map[MyStr]Simple", "Wide", "Embeds"},
 	"colls":  {"Colls", "Nest2", "NamedPrims", "[]int16", "map[string]uint16", "[][]string"},
@@ -2041,7 +2100,7 @@ var families = map[string][]string{
 	"arrays": {"Triple", "Pair", "Quad", "[]interface{}-of-named-arrays", "[3]int", "ArrHolder", "[]interface{}"},
 	"bad":    {"BadField", "HasBad", "[]BadField", "Simple", "Inner", "IfaceField", "HasIface"},
 	"label":  {"Label", "Labeled", "Strs", "Prims", "PInt16", "[]PUint32", "IntList", "Lists", "[]*Label", "map[string]*Label", "[]*Score", "[]*PInt16", "map[string]*IntList"},
-	"omit":   {"Opts", "[]Opts", "OmitIfc", "OmitAll", "LongNames", "Tagged"},
+	"omit":   {"Opts", "[]Opts", "OmitIfc", "OmitTwins", "OmitTwins", "OmitAll", "LongNames", "Tagged"},
 	"empty":  {"[]Empty", "map[string]Empty", "Empties", "[]interface{}", "map[string]interface{}"},
 	"shape":  {"map[string]Shape", "[]Shape", "Shapes", "map[string]interface{}", "[]interface{}"},
 	"folder": {"WithFolder", "InlineFolder", "InlineIfc", "InlineMap", "InlineTyped", "map[string]interface{}"},
